@@ -33,6 +33,11 @@ pub struct SsCase {
     /// None: the default start (front one train length into the path)
     #[serde(default)]
     pub init_extra: Option<f64>,
+    /// true: the simulation is assembled by hand from the parts returned by the secondary builder entry point
+    /// `make_set_speed_train_sim_and_parts`: the path-resistance caches (`path_res::Strap::new`) are constructed against
+    /// the ALREADY POPULATED path at the train's initial position (the builder constructs them against the empty path)
+    #[serde(default)]
+    pub hand_built: bool,
     /// letters: accel index * 3 + dt index; 100 + k = "negative speed" probe (C14)
     pub path: Vec<usize>,
 }
@@ -42,6 +47,18 @@ pub fn build_sim(nets: &[(String, Network)], c: &SsCase) -> Result<SetSpeedTrain
     let b = builder(&c.train, None, Some(InitTrainState::new(Some(0.0 * uc::S), off, Some(c.init_speed.unwrap_or(c.v0) * uc::MPS))), Some(1));
     let route: Vec<_> = c.route.iter().map(|&i| lidx(i)).collect();
     let trace = SpeedTrace::new(vec![0.0], vec![c.v0], None);
+    if c.hand_built {
+        use altrios_core::train::kind::path_res;
+        let (sim0, _tp, path, res0, _fb) = b.make_set_speed_train_sim_and_parts(&nets[c.net].1, &route, trace, Some(1)).map_err(|e| format!("{e:#}"))?;
+        let grade = path_res::Strap::new(path.grades(), &sim0.state).map_err(|e| format!("{e:#}"))?;
+        let curve = path_res::Strap::new(path.curves(), &sim0.state).map_err(|e| format!("{e:#}"))?;
+        // the resistance model's fields are private: exchange the two path caches through the serialized form
+        let mut v = serde_json::to_value(&res0).map_err(|e| e.to_string())?;
+        v["Strap"]["grade"] = serde_json::to_value(&grade).map_err(|e| e.to_string())?;
+        v["Strap"]["curve"] = serde_json::to_value(&curve).map_err(|e| e.to_string())?;
+        let res: altrios_core::train::TrainRes = serde_json::from_value(v).map_err(|e| e.to_string())?;
+        return Ok(SetSpeedTrainSim::new(sim0.loco_con.clone(), sim0.state.clone(), sim0.speed_trace.clone(), res, path, Some(1)));
+    }
     b.make_set_speed_train_sim(&nets[c.net].1, &route, trace, Some(1)).map_err(|e| format!("{e:#}"))
 }
 
@@ -338,7 +355,7 @@ pub fn explore(ctx: &mut Ctx, which: &'static str) {
     let (full_d, dev1, dev2) = bounds(ctx.tier);
     let n_letters = 9usize;
     for (ci, (net, route, train)) in combos(&nets, ctx.tier).into_iter().enumerate() {
-        for (v0, init_speed, init_extra) in [(12.0, None, None), (0.0, None, None), (12.0, Some(0.0), None), (12.0, None, Some(137.5f64))] {
+        for (v0, init_speed, init_extra, hand_built) in [(12.0, None, None, false), (0.0, None, None, false), (12.0, Some(0.0), None, false), (12.0, None, Some(137.5f64), false), (12.0, None, Some(137.5f64), true), (12.0, None, Some(1210.0f64), true)] {
             if init_speed.is_some() && which != "C14" && which != "C11" {
                 continue;
             }
@@ -346,11 +363,18 @@ pub fn explore(ctx: &mut Ctx, which: &'static str) {
             if init_extra.is_some() && which != "C12" && which != "C07" {
                 continue;
             }
+            if let Some(x) = init_extra {
+                // the start position must leave room for the run on this route
+                let route_len: f64 = route.iter().map(|&i| nets[net].1 .0[i].length.value).sum();
+                if x > 200.0 && train_ref(&train).length + x + 600.0 > route_len {
+                    continue;
+                }
+            }
             for first in 0..n_letters {
                 if !ctx.claim() {
                     continue;
                 }
-                let base = SsCase { net, route: route.clone(), train, v0, init_speed, init_extra, path: vec![] };
+                let base = SsCase { net, route: route.clone(), train, v0, init_speed, init_extra, hand_built, path: vec![] };
                 let root = match build_sim(&nets, &base) {
                     Ok(s) => s,
                     Err(e) => {
@@ -376,7 +400,7 @@ pub fn explore(ctx: &mut Ctx, which: &'static str) {
                 }
                 let mut nleaf = 0u64;
                 let mut modes = vec![(full_d, None), (dev1, Some(1usize))];
-                if v0 > 0.0 && init_speed.is_none() {
+                if v0 > 0.0 && init_speed.is_none() && !hand_built {
                     modes.push((dev2, Some(2usize)));
                 }
                 if init_speed.is_some() {
@@ -392,7 +416,7 @@ pub fn explore(ctx: &mut Ctx, which: &'static str) {
                         }
                         ctx.transition();
                         ctx.depth(path.len() as u64);
-                        let mk = |path: &[usize]| SsCase { net, route: route.clone(), train, v0, init_speed, init_extra, path: path.to_vec() };
+                        let mk = |path: &[usize]| SsCase { net, route: route.clone(), train, v0, init_speed, init_extra, hand_built, path: path.to_vec() };
                         if so.panicked {
                             ctx.violation(&format!("panic@SetSpeedTrainSim::step:{which}"), so.err.chars().take(300).collect(), serde_json::to_value(mk(path)).unwrap(), path.len() as u64);
                             return None;
@@ -439,7 +463,7 @@ pub fn explore(ctx: &mut Ctx, which: &'static str) {
                         if so.accepted || so.panicked {
                             let mut p: Vec<usize> = vec![0; pos];
                             p.push(100);
-                            ctx.violation("negative-speed-accepted@SetSpeedTrainSim::solve_step:set-speed", format!("a trace point with speed -0.5 m/s at position {} was {}", pos + 1, if so.panicked { "a panic" } else { "accepted" }), serde_json::to_value(SsCase { net, route: route.clone(), train, v0, init_speed, init_extra, path: p }).unwrap(), pos as u64);
+                            ctx.violation("negative-speed-accepted@SetSpeedTrainSim::solve_step:set-speed", format!("a trace point with speed -0.5 m/s at position {} was {}", pos + 1, if so.panicked { "a panic" } else { "accepted" }), serde_json::to_value(SsCase { net, route: route.clone(), train, v0, init_speed, init_extra, hand_built, path: p }).unwrap(), pos as u64);
                         } else {
                             ctx.sig("negative-speed-rejected");
                         }
@@ -474,18 +498,17 @@ pub fn run_case(nets: &[(String, Network)], c: &SsCase) -> Result<Vec<(SetSpeedT
 }
 
 pub fn validate_walk(nets: &[(String, Network)], c: &SsCase, explored: &SetSpeedTrainSim) -> Result<(), String> {
-    // the explored sim carries the complete trace; walk a fresh sim over it
-    let off = c.init_extra.map(|x| (train_ref(&c.train).length + x) * uc::M);
-    let b = builder(&c.train, None, Some(InitTrainState::new(Some(0.0 * uc::S), off, Some(c.init_speed.unwrap_or(c.v0) * uc::MPS))), Some(1));
-    let route: Vec<_> = c.route.iter().map(|&i| lidx(i)).collect();
-    let mut fresh = b.make_set_speed_train_sim(&nets[c.net].1, &route, explored.speed_trace.clone(), Some(1)).map_err(|e| format!("{e:#}"))?;
+    // the explored sim carries the complete trace; walk a fresh sim (assembled the same way as the case's root) over it
+    let mut fresh = build_sim(nets, &SsCase { path: vec![], ..c.clone() })?;
+    fresh.speed_trace = explored.speed_trace.clone();
     match guarded(|| fresh.walk()) {
         Ok(Ok(())) => {
             // walk() saves the initial state first; the explorer's incremental steps do not
             if fresh.state == explored.state && fresh.loco_con.state == explored.loco_con.state && fresh.history.len() == explored.history.len() + 1 {
                 Ok(())
             } else {
-                Err(format!("SetSpeedTrainSim::walk ends in a different state than the incrementally explored object for {:?}", c))
+                let d = crate::props::c17::first_diff(&serde_json::to_value(&fresh.state).unwrap_or_default(), &serde_json::to_value(&explored.state).unwrap_or_default(), 0.0, "state");
+                Err(format!("SetSpeedTrainSim::walk ends in a different state than the incrementally explored object (state eq {}, consist eq {}, history {} vs {}+1; first diff {:?}) for {:?}", fresh.state == explored.state, fresh.loco_con.state == explored.loco_con.state, fresh.history.len(), explored.history.len(), d, c))
             }
         }
         Ok(Err(e)) => Err(format!("walk failed where the explorer accepted every step: {e:#} for {:?}", c)),
